@@ -360,3 +360,25 @@ pub fn first_diff_key(a: &Obs, b: &Obs) -> String {
     }
     "length".into()
 }
+
+/// True when the two observation lists differ in something other than raw offsets: record
+/// contents, counts, EDNS options or summary, header fields, question.
+pub fn content_differs(a: &Obs, b: &Obs) -> bool {
+    use std::collections::BTreeMap;
+    let is_content = |k: &str| -> bool {
+        !(k.starts_with("offset_") || k.ends_with(".offset") || k.ends_with(".offset_next") || k == "has_bytes")
+    };
+    let ma: BTreeMap<&str, &Val> = a.iter().map(|(k, v)| (k.as_str(), v)).collect();
+    let mb: BTreeMap<&str, &Val> = b.iter().map(|(k, v)| (k.as_str(), v)).collect();
+    for (k, v) in &ma {
+        if is_content(k) && mb.get(k) != Some(v) {
+            return true;
+        }
+    }
+    for (k, v) in &mb {
+        if is_content(k) && ma.get(k) != Some(v) {
+            return true;
+        }
+    }
+    false
+}
